@@ -69,3 +69,17 @@ def replay(ctx, case):
     for f in res["findings"]:
         print("  unexplained row", f["line"], "fields", f["fields"])
         ctx.violation(case["sig"], {"kind": "session-trace", **f})
+
+
+def tlc_histories(ctx, cfg_file: str, limit, rng) -> list:
+    """Histories printed by a GenMode run of MC_Session (one per distinct state, shortest first) as schedules."""
+    from vf.tlc import TLCFailure, parse_tagged
+
+    r = ctx.tlc("MC_Session", cfg_file, workers=1, timeout=3000)
+    hists = parse_tagged(sorted(set(r.raw_printed)), "SCHED")
+    if len(hists) < 1000:
+        raise TLCFailure(f"{cfg_file} printed only {len(hists)} histories")
+    ctx.extra["tlc_generated_histories"] = len(hists)
+    if limit is not None and len(hists) > limit:
+        hists = rng.sample(hists, limit)
+    return [(CFGS[i % 2], sessionsim.tokens_to_schedule(h, i)) for i, h in enumerate(hists)]
